@@ -29,6 +29,8 @@ def policy_dict(scn):
         d['attribute_restrictions'] = {'givenName': None, 'mail': None}
     elif p == 'a1v1only':
         d['attribute_restrictions'] = {'givenName': ['^%s$' % VAL['v1']], 'mail': None}
+    elif p == 'a1unanchored':
+        d['attribute_restrictions'] = {'givenName': ['two'], 'mail': None}
     elif p == 'a1v1twice':
         d['attribute_restrictions'] = {'givenName': ['^val-one', u'^val-o.*\u00e9$'], 'mail': None}
     elif p == 'perSP_a1':
@@ -126,6 +128,9 @@ def replay(case):
         if vals:
             key = a.upper() if (scn['upper'] and a == 'mail') else a
             identity[key] = [VAL[v].encode('utf-8') if scn.get('typed') else VAL[v] for v in sorted(vals)]
+    if scn.get('split') and len(identity.get('givenName', [])) > 1:
+        identity['GivenName'] = identity['givenName'][1:]
+        identity['givenName'] = identity['givenName'][:1]
     from saml2_tophat.saml import NameID, NAMEID_FORMAT_TRANSIENT
     obs = {'identity': identity, 'paths': {}}
     nid = NameID(format=NAMEID_FORMAT_TRANSIENT, text='subject-1')
